@@ -60,10 +60,14 @@ def _hier_case(repo, it, S, spec):
     chrom = chrom_parent(it, GENOME, alphabet=ALPHA)
     chrom_seq = chrom.fields["sequence"]
     # level 1
+    l1_id = "lvl1"
+    if len(lv1) == 3:
+        # a level that carries the chromosome's own name and length (a full-length view on the other strand)
+        lv1, l1_id = lv1[:2], lv1[2]
     l1_blocks, l1_strand = lv1
     loc1 = _mk_loc(it, S, l1_blocks, l1_strand, chrom)
     img1 = image(l1_blocks, l1_strand)
-    seq1 = mk_sequence(it, img1, ALPHA, id="lvl1", type=st["SEQUENCE_CHUNK"],
+    seq1 = mk_sequence(it, img1, ALPHA, id=l1_id, type=st["SEQUENCE_CHUNK"],
                        parent=mk_parent(it, location=loc1, sequence=chrom_seq))
     if rc_level:
         # the level is the reverse complement of the sequence placed by loc1: same blocks, opposite strand
@@ -72,7 +76,7 @@ def _hier_case(repo, it, S, spec):
             return 1, [("reverse-complemented level", f"levels {lv1}: reverse_complement raises {seq1}", "sequence.sequence:Sequence.reverse_complement")]
         l1_strand = "MINUS" if l1_strand == "PLUS" else "PLUS"
         img1 = seq1.fields["sequence"]
-    par1 = mk_parent(it, id="lvl1", sequence=seq1)
+    par1 = mk_parent(it, id=l1_id, sequence=seq1)
     outer_blocks, outer_strand = l1_blocks, l1_strand
     level_parent = par1
     level_img = img1
@@ -402,6 +406,12 @@ def rk_hierarchies(ctx):
     for lv1 in LEVEL1:
         for lay, sn in children[::2]:
             specs.append((lv1, None, lay, sn, "rc"))
+    # levels that look like their ancestor from the outside: the whole chromosome seen from the other strand (and from the same
+    # strand) under the chromosome's own name, and under no name
+    for lv1 in (([(0, len(GENOME))], "MINUS", "chr1"), ([(0, len(GENOME))], "PLUS", "chr1"), ([(0, len(GENOME))], "MINUS", None)):
+        for lv2 in (None, LEVEL2[0], LEVEL2[2]):
+            for lay, sn in children[::3]:
+                specs.append((lv1, lv2, lay, sn))
     ctx.r.floor("C04.RK", "hierarchy x child location cases", len(specs), 200)
     results = pmap(_runner(ctx.repo, _hier_case), specs)
     especs = []
@@ -466,6 +476,39 @@ def _refusal_case(repo, it, S, spec):
         got = enum_positions(blocks_of(v), strand_of(v).name) if k == "ok" else None
         if got != want:
             out.append((which, f"[2,6)+ on a level placed at [10,30)- lifts to {k}:{got}; base by base {want}", f.qual))
+    elif which == "interval wrapper":
+        # the interval-level entry point with every kind of target type: its own level, a level above the chromosome, a
+        # type no ancestor has
+        from ..genekernel import chunk_parent, mk_feature, mk_transcript
+        fw = repo.fn("gene.interval:AbstractInterval.lift_over_to_first_ancestor_of_type")
+        up = mk_parent(it, id="asm", sequence_type="assembly", location=it.apply(ClassTok("SingleInterval"), [100, 200, S["PLUS"]], {}, None, 0))
+        chrom = mk_parent(it, id="chr1", sequence_type=st["CHROMOSOME"], parent=up)
+        plain = chrom_parent(it, GENOME, alphabet=ALPHA)
+        chunk = chunk_parent(it, GENOME, 2, 30, alphabet=ALPHA)
+        for mk, label in ((lambda p_: mk_feature(it, [(3, 9), (12, 15)], S["PLUS"], parent_or_seq_chunk_parent=p_), "feature"),
+                          (lambda p_: mk_transcript(it, [(3, 9), (12, 15)], S["MINUS"], parent_or_seq_chunk_parent=p_), "transcript")):
+            sn = "PLUS" if label == "feature" else "MINUS"
+            cases = [(chrom, "chromosome placed at asm:100-200", "assembly", [(103, 109), (112, 115)]),
+                     (chrom, "chromosome placed at asm:100-200", st["CHROMOSOME"], [(3, 9), (12, 15)]),
+                     (chrom, "chromosome placed at asm:100-200", st["SEQUENCE_CHUNK"], "NoSuchAncestorException"),
+                     (plain, "plain chromosome", st["SEQUENCE_CHUNK"], "NoSuchAncestorException"),
+                     (plain, "plain chromosome", "assembly", "NoSuchAncestorException"),
+                     (plain, "plain chromosome", st["CHROMOSOME"], [(3, 9), (12, 15)]),
+                     (chunk, "chunk chr1:2-30", st["CHROMOSOME"], [(3, 9), (12, 15)]),
+                     (chunk, "chunk chr1:2-30", st["SEQUENCE_CHUNK"], [(1, 7), (10, 13)]),
+                     (chunk, "chunk chr1:2-30", "assembly", "NoSuchAncestorException")]
+            for par, pname, target, want in cases:
+                obj = mk(par)
+                k, v = run(it, fw, [target], {}, obj)
+                tn = getattr(target, "name", target)
+                if isinstance(want, str):
+                    if not (k == "raise" and v == want):
+                        out.append((which, f"{label} on {pname}: lift_over_to_first_ancestor_of_type({tn}) -> {k}:"
+                                    f"{blocks_of(v) if k == 'ok' else v}; no such ancestor: documented {want}", fw.qual))
+                elif k != "ok" or sorted(blocks_of(v)) != want or strand_of(v).name != sn:
+                    out.append((which, f"{label} on {pname}: lift_over_to_first_ancestor_of_type({tn}) -> {k}:"
+                                f"{(blocks_of(v), strand_of(v).name) if k == 'ok' else v}; composing the level maps gives {want} on {sn}", fw.qual))
+        return len(cases) * 2, out
     else:
         # ancestor lookup without any such ancestor
         p = mk_parent(it, id="lvl", sequence_type=st["SEQUENCE_CHUNK"], parent=mk_parent(it, id="up", sequence_type=st["SEQUENCE_CHUNK"]))
@@ -481,7 +524,7 @@ def _refusal_case(repo, it, S, spec):
 
 
 def r1_refusals(ctx):
-    specs = [(w,) for w in ("no child location", "no parent", "parent without location", "complete", "no such ancestor")]
+    specs = [(w,) for w in ("no child location", "no parent", "parent without location", "complete", "no such ancestor", "interval wrapper")]
     results = pmap(_runner(ctx.repo, _refusal_case), specs, min_items=99)
     _report(ctx, "C04.R1", results, [("parent.parent:Parent.lift_child_location_to_parent", "missing data refused before lifting"),
                                      ("parent.parent:Parent.first_ancestor_of_type", "missing ancestor -> NoSuchAncestorException")])
